@@ -130,3 +130,53 @@ lemma(
     '(0 + (s2 / n - (s1 / n) * (s1 / n)) * n + (s1 / n - 0) * (s1 / n - 0) * n * 0 / (0 + n)) == s2 - s1 * s1 / n',
   ],
   body='pass', props=('C17',))
+
+# ---- MultiMetric: reset / update / compute reach EVERY underlying metric, once, update with the very same keyword arguments ----
+import z3 as _z3
+MName = opaque('MetricName', universe=['loss', 'accuracy'])
+MRef = opaque('UnderlyingMetric', is_str=False)
+MNames = SeqOf(MName)
+MM = ObjSort('MultiMetricObj', dict(_metric_names=MNames))
+metric_of = UFn('metric_named', [MM, MName], MRef, 'getattr(self, metric_name)')
+computed = UFn('metric_compute', [MRef], REAL, 'metric.compute()')
+MM.getattr_dyn = lambda ex, v, name: ex.call_value(metric_of, [v, ex.coerce(name, MName)], {})
+UpdKw = opaque('UpdateKwargs', is_str=False)
+
+
+def _touch(setname):
+  def call(ex, v, a, kw):
+    cur = ex.store['$' + setname]
+    ex.store['$' + setname] = SV(cur.sort, _z3.Store(cur.t, v.t, True))
+    if setname == '_updated':
+      # update(**updates): the keyword arguments are handed on unchanged, nothing else is passed
+      same = ex.coerce(kw['**'], UpdKw).t == ex.deref(ex._cur_env.lookup('updates')).t if set(kw) == {'**'} and not a else _z3.BoolVal(False)
+      ex.oblige(same, 'pre:update-forwards-kwargs')
+    return NONEV
+  return call
+
+
+MRef.methods = {'reset': _touch('_reset'), 'update': _touch('_updated'), 'compute': lambda ex, v, a, kw: ex.call_value(computed, [v], {})}
+ALL_TOUCHED = lambda s: [f"forall(Int, lambda i: implies(0 <= i and i < len(self._metric_names), metric_named(self, self._metric_names[i]) in {s}))",
+                         f"forall(UnderlyingMetric, lambda m: implies(m in {s}, exists(Int, lambda i: 0 <= i and i < len(self._metric_names) and m == metric_named(self, self._metric_names[i]))))"]
+TOUCH_INV = lambda s: [f"forall(Int, lambda i: implies(0 <= i and i < _k, metric_named(self, self._metric_names[i]) in {s}))",
+                       f"forall(UnderlyingMetric, lambda m: implies(m in {s}, exists(Int, lambda i: 0 <= i and i < _k and m == metric_named(self, self._metric_names[i]))))"]
+mm_reset = function(
+  F + '::MultiMetric.reset', params=[('self', MM)], ensures=ALL_TOUCHED('_reset'), invariants={0: TOUCH_INV('_reset')}, modifies=[], props=('C17',))
+mm_reset.ghost_state = {'_reset': (SetOf(MRef), None)}
+
+
+def _init_updates(ex):
+  return SV(SetOf(MRef), SetOf(MRef).empty())
+
+
+mm_update = function(
+  F + '::MultiMetric.update', params=[('self', MM), ('updates', UpdKw)], ensures=ALL_TOUCHED('_updated'), invariants={0: TOUCH_INV('_updated')}, modifies=[], props=('C17',))
+mm_update.kwarg = 'updates'
+mm_update.ghost_state = {'_updated': (SetOf(MRef), None)}
+mm_compute = function(
+  F + '::MultiMetric.compute', params=[('self', MM)], returns=MapOf(MName, REAL),
+  ensures=["forall(Int, lambda i: implies(0 <= i and i < len(self._metric_names), self._metric_names[i] in result and "
+           "result[self._metric_names[i]] == metric_compute(metric_named(self, self._metric_names[i]))))",
+           "forall(MetricName, lambda n: implies(n in result, exists(Int, lambda i: 0 <= i and i < len(self._metric_names) and self._metric_names[i] == n)))"],
+  modifies=[], props=('C17',))
+mm_compute.dict_hint = MapOf(MName, REAL)
